@@ -49,6 +49,9 @@ CHECKS['C20'] = dict(tech=T + ' of the lexer kernels started in a state satisfyi
 CHECKS['C14'] = dict(tech=T + ' of every member of Thread_Storage<Stack_Holder> with the per-thread map as a recorder',
    text='Key discipline that yields isolation for every create/use/destroy history on any threads and addresses: the key under which a storage object files per-thread state is never reused by a later object - checked for an arbitrary counter start, an arbitrary number of constructions in between and the second object at the SAME address - and every accessor and the destructor use exactly that key.',
    note='the unordered_map itself is a recorder; counter wrap-around (2^64 constructions) excluded; an IR scan for other process-wide mutable statics is not implemented yet')
+CHECKS['C08'] = dict(tech=T + ' (detail::clone_if_necessary, Inline_Array_AST_Node and Constant_AST_Node eval_internal) with abstract children and recorder callees',
+   text='The copy rule that keeps literals out of reach of mutation: for every value kind (bool/string/other, arithmetic or not, const or not) a value that is not a pending return value is never stored itself - exactly one copy is made by the documented route; vector literals copy every element once, in order, into a fresh vector per evaluation; Constant and Inline_Array nodes are bit-identical after evaluation.',
+   note='the copy routines themselves (Boxed_Number::clone, box constructors, script clone) are recorders; Inline_Map/Assign_Decl not covered yet; constness of literal values is C07/C16')
 ALL = ['C%02d' % i for i in range(1, 21)]
 def main():
     checks = []
